@@ -960,6 +960,7 @@ func interpretSVG(doc []byte) *displayList {
 			it := item{role: "stroke", paint: sp,
 				src: src + " " + par.String()}
 			it.reg = region{key: dkey + "|stroke|" + par.key(), pls: mapPolys(strokeOutline(sh.sps, par, false), total)}
+			it.widthMM = effectiveWidth(total, par.width)
 			if len(par.dashes) > 0 && hasClosedSubpath(sh.sps) {
 				it.alt = &region{key: dkey + "|stroke-joined|" + par.key(), pls: mapPolys(strokeOutline(sh.sps, par, true), total)}
 			}
